@@ -72,6 +72,8 @@ def interp_aperture(ap_table, values, ap):
         if ap_table[i] <= ap <= ap_table[i + 1]:
             if ap == ap_table[i]:
                 return values[i]
+            if ap == ap_table[i + 1]:
+                return values[i + 1]
             t = (ap - ap_table[i]) / (ap_table[i + 1] - ap_table[i])
             return values[i] + t * (values[i + 1] - values[i])
     return values[-1]
